@@ -390,6 +390,20 @@ func cmdNormal(args []string) int {
 		return 2
 	}
 	res2 := rules.RunCheck(chk, p2, primary.String())
+	if dump := os.Getenv("VERIF_DUMP_FN"); dump != "" {
+		for _, fn := range p2.SrcFuncs {
+			if ir.FnName(fn) == dump {
+				fn.WriteTo(os.Stdout)
+				for _, b := range fn.Blocks {
+					var fs []string
+					for _, f := range ir.Facts(b) {
+						fs = append(fs, fmt.Sprintf("%s=%t", f.Cond.Name(), f.True))
+					}
+					fmt.Printf("facts[%d]: %s\n", b.Index, strings.Join(fs, " "))
+				}
+			}
+		}
+	}
 	fmt.Println("normal form: errors:", res2.Errors)
 	for _, o := range res2.Obligations {
 		if o.Status != report.Discharged {
